@@ -6,7 +6,7 @@ whose every draw comes from R and that neither draws from G/E nor reseeds G is a
 import argparse
 import sys
 
-from .common import cli_main, concrete_screen
+from .common import cli_main, cli_argv, concrete_screen
 from .retro_ops import op_configs, run_op
 from .retro_common import fixture_values, FAMILIES, build
 
@@ -18,7 +18,7 @@ FUNCTIONS = [
     "batchie.policies.k_per_sample.KPerSamplePlatePolicy.filter_eligible_plates", "batchie.scoring.main.score_chunk / select_next_plate",
     "batchie.sampling.sample + one full sweep of LegacySparseDrugComboImpl.mcmc_step and LegacySparseDrugComboInteractionImpl.mcmc_step",
     "batchie.fast_mvn.sample_mvn_from_precision", "batchie.cli.argument_parsing.get_prng_from_seed_argument",
-    "batchie.cli.prepare_retrospective_simulation.main / calculate_scores.main / select_next_plate.main / train_model.main (argument parsers stubbed)",
+    "batchie.cli.prepare_retrospective_simulation.main / calculate_scores.main / select_next_plate.main / train_model.main (through get_parser / get_args with sys.argv set; class lookup by name answered from the loaded modules)",
 ]
 BOUNDS = {
     "quick": "the small shapes of C05/C06/C08/C11: every retrospective operation on its family screens (two generated structures included), scorers on 3 plates, one Gibbs sweep of each shipped model on 3 observations (embedding size 1, a sample and a treatment without data), the four CLI entry points",
@@ -71,6 +71,16 @@ class _RealRecorder:
 
     def __enter__(self):
         from ..symlibs import _callsite
+        # batchie's class lookup (introspection.get_class) imports every module of the package; libraries draw random numbers
+        # while they are imported (scipy.stats builds doc examples): import everything before the recording starts
+        import importlib
+        import pkgutil
+        import batchie
+        for info in pkgutil.walk_packages(batchie.__path__, "batchie."):
+            try:
+                importlib.import_module(info.name)
+            except Exception:
+                pass
         rnd = self.np.random
         for n in self.NAMES:
             if hasattr(rnd, n):
@@ -477,8 +487,8 @@ def h_cli_scores(ctx, cfg):
     screen = _three_plates(ctx)
     sfn, tfn, dfn = _save_inputs(ctx, screen)
     with _Streams(ctx) as st:
-        cli_main(ctx, "batchie.cli.calculate_scores", data=sfn, thetas=[tfn], distance_matrix=[dfn], scorer_cls=rand.RandomScorer,
-                 scorer_params={}, n_chunks=1, chunk_index=0, batch_plate_ids=[], output=ctx.tmp("scores.h5"), seed=7)
+        cli_argv(ctx, "batchie.cli.calculate_scores", ["--data", sfn, "--thetas", tfn, "--distance-matrix", dfn, "--scorer", "RandomScorer",
+                                                       "--output", ctx.tmp("scores.h5"), "--seed", 7])
     return _judge(ctx, st, "calculate_scores --seed")
 
 
@@ -493,8 +503,8 @@ def h_cli_select(ctx, cfg):
     scf = ctx.tmp("sc.h5")
     h.save_h5(scf)
     with _Streams(ctx) as st:
-        cli_main(ctx, "batchie.cli.select_next_plate", data=sfn, policy="KPerSamplePlatePolicy", policy_cls=kp.KPerSamplePlatePolicy,
-                 policy_params={"k": 1}, scores=[scf], batch_plate_id=[], output=ctx.tmp("sel"), seed=7)
+        cli_argv(ctx, "batchie.cli.select_next_plate", ["--data", sfn, "--policy", "KPerSamplePlatePolicy", "--policy-param", "k=1", "--scores", scf,
+                                                        "--output", ctx.tmp("sel"), "--seed", 7])
     return _judge(ctx, st, "select_next_plate --seed")
 
 
@@ -505,12 +515,12 @@ def h_cli_prepare(ctx, cfg):
     sfn = ctx.tmp("full.h5")
     screen.save_h5(sfn)
     with _Streams(ctx) as st:
-        cli_main(ctx, "batchie.cli.prepare_retrospective_simulation", data=sfn, seed=11, holdout_fraction=0.5,
-                 initial_plate_generator="SparseCoverPlateGenerator", initial_plate_generator_cls=retro.SparseCoverPlateGenerator,
-                 initial_plate_generator_params={"reveal_single_treatment_experiments": False},
-                 plate_generator="SampleSegregatingPermutationPlateGenerator", plate_generator_cls=retro.SampleSegregatingPermutationPlateGenerator,
-                 plate_generator_params={"max_plate_size": 2}, plate_smoother="FixedSizeSmoother", plate_smoother_cls=retro.FixedSizeSmoother,
-                 plate_smoother_params={"plate_size": 1}, training_output=ctx.tmp("train.h5"), test_output=ctx.tmp("test.h5"))
+        cli_argv(ctx, "batchie.cli.prepare_retrospective_simulation", [
+            "--data", sfn, "--seed", 11, "--holdout-fraction", 0.5,
+            "--initial-plate-generator", "SparseCoverPlateGenerator", "--initial-plate-generator-param", "reveal_single_treatment_experiments=false",
+            "--plate-generator", "SampleSegregatingPermutationPlateGenerator", "--plate-generator-param", "max_plate_size=2",
+            "--plate-smoother", "FixedSizeSmoother", "--plate-smoother-param", "plate_size=1",
+            "--training-output", ctx.tmp("train.h5"), "--test-output", ctx.tmp("test.h5")])
         draws = st.all_draws()
     if ctx.mode != "real":
         toks = {str(d.get("token")) for d in draws}
@@ -524,8 +534,9 @@ def h_cli_train(ctx, cfg):
     sfn = ctx.tmp("train.h5")
     screen.save_h5(sfn)
     with _Streams(ctx) as st, _CheapLapack(ctx):
-        cli_main(ctx, "batchie.cli.train_model", data=sfn, model_cls=sc.SparseDrugCombo, model_params={"n_embedding_dimensions": 1},
-                 output=ctx.tmp("thetas.h5"), n_samples=1, n_burnin=0, thin=1, n_chains=1, chain_index=0, seed=5)
+        cli_argv(ctx, "batchie.cli.train_model", ["--data", sfn, "--model", "SparseDrugCombo", "--model-param", "n_embedding_dimensions=1",
+                                                  "--output", ctx.tmp("thetas.h5"), "--n-samples", 1, "--n-burnin", 0, "--thin", 1, "--n-chains", 1,
+                                                  "--chain-index", 0, "--seed", 5])
     return _judge(ctx, st, "train_model --seed")
 
 
